@@ -79,6 +79,32 @@ def scenario_search(pid, budget_s=25):
     return run
 
 
+def expr_layer(quick_budget=4, thorough_budget=5):
+    """C08 lexical layer, bounded (DESIGN 4.C08): all well-formed expressions up to a token budget."""
+    import json as _json
+
+    def run(tier, seed, run_native):
+        budget, limit = (thorough_budget, 400) if tier == "thorough" else (quick_budget, 60)
+        rc, out, err = run_native(["-m", "runtime.expr_enum", str(budget), str(limit)], timeout=limit * 2 + 60)
+        try:
+            res = _json.loads(out.strip().splitlines()[-1])
+        except Exception:
+            return {"what": "C08 lexical layer", "error": (err or out)[-400:], "violations": []}
+        r = {"what": "C08 lexical layer (text -> AST): every well-formed expression of the documented grammar up to the token "
+                     "budget, 3 spacings x 2 operator spellings, all valuations, real parse_boolean_expr vs CPython eval (bounded, not a proof)",
+             "bound": f"<= {budget} tokens over names {{a, v1, nova, not_x}}, literals {{True, 0, 1, 'v', 'a^b'}}, 6 comparisons, not/and/or, parentheses",
+             "evaluations": res["cases"], "distinct": res["expressions"], "exhaustive": res.get("exhaustive", False),
+             "known_region_hits": res["known_region_hits"], "seconds": res.get("seconds"), "violations": []}
+        if res.get("violation"):
+            r["violations"].append({"name": "bounded:C08:expression-disagrees-with-python", "replay": res.get("replay"),
+                                    "difference": res["violation"]})
+        for reg, hits in res["known_region_hits"].items():
+            if hits:
+                r["violations"].append({"name": f"bounded:C08:lexical-region-{reg}", "replay": None, "difference": f"{hits} disagreements in region {reg}"})
+        return r
+    return run
+
+
 def _scans_engine():
     from . import scans
     return scans.scan_state_field_writers() + scans.scan_queue_mutators() + scans.scan_lock_operations()
@@ -101,6 +127,11 @@ PROPERTIES = {
             "assumptions": ["inspect.Signature validity (kind order, distinct names) as a precondition of bind_expected",
                             "inspect.BoundArguments.args/.kwargs (how a binding is turned into a call) are CPython's",
                             "callable_method / attr_method / event_method adapters (dispatcher.py) are not under contract yet"]},
+    "C08": {"bounded": [expr_layer()],
+            "assumptions": [
+                "operands of guard expressions are read without side effects (OperandCall oracle)",
+                "build_expression / parse_boolean_expr (AST walk) and Listeners.build are not under contract yet: the AST->closure mapping is covered by the bounded lexical layer only; the five combinator closures, the guard conjunction (all/async_all, expected_value) and CallbacksRegistry.check are proved",
+                "operator.eq/ne/gt/ge/lt/le are Python's comparisons (CMP)"]},
     "C09": {"assumptions": [
         "REACH is the least relation closed under 'start' and 'transition target': the induction principle is applied once, to the set yielded by visit_connected_states (Visit.derived); closedness of that set is a discharged postcondition",
         "State objects are compared by identity in sets/dicts (State.__hash__/__eq__ consistent, (name,id) pairs distinct)",
